@@ -2,6 +2,9 @@ package main
 
 import (
 	"fmt"
+	"go/constant"
+	"go/types"
+	"sort"
 	"strings"
 
 	"golang.org/x/tools/go/ssa"
@@ -25,29 +28,42 @@ func checkC09(c *Ctx) (string, []string) {
 	ret := func(n string) map[string][]string { return returnShapes(fn[n]) }
 
 	c.Rule("C09.threshold-formula", "CalcThresholdBalance = B_S + B_I·items + B_L·octets with every product computed in 64 bits, minus the gratis offset, floored at zero by an explicit comparison before the subtraction", 3)
-	sum := "(((10 * u64(p0)) + 100) + (1 * p1))"
-	c.checkShapes("C09.threshold-formula", K+"CalcThresholdBalance", fn["CalcThresholdBalance"], ret("CalcThresholdBalance"), map[string][]string{"ret": {"(" + sum + " - p2)", "0"}})
 	{
 		f := fn["CalcThresholdBalance"]
-		floor := condEdges(f, func(v ssa.Value) (bool, bool) { return exprStr(v, shapeOpts) == "("+sum+" < p2)", true })
-		ok := len(floor) == 1
-		allInstrs(f, func(in ssa.Instruction) {
-			r, isR := in.(*ssa.Return)
-			if !isR {
-				return
-			}
-			s := exprStr(retResults(r)[0], shapeOpts)
-			if s == "0" {
-				ok = ok && guardedBy(f, in, floor)
-			} else {
-				nf := []edge{}
-				for _, e := range floor {
-					nf = append(nf, edge{e.from, 1 - e.succ})
+		bS, bI, bL := uint64(100), uint64(10), uint64(1)
+		for name, dst := range map[string]*uint64{"BasicMinBalance": &bS, "AdditionalMinBalancePerItem": &bI, "AdditionalMinBalancePerOctet": &bL} {
+			if k, ok := c.Obj(typesPkg, name).(*types.Const); ok {
+				if v, exact := constant.Uint64Val(k.Val()); exact {
+					*dst = v
 				}
-				ok = ok && guardedBy(f, in, nf)
 			}
-		})
-		c.Check(ok, "C09.threshold-formula", K+"CalcThresholdBalance · floor", f.Pos(), "0 iff deposit < gratis offset, difference otherwise", "the zero floor is not decided by comparing the deposit with the gratis offset before subtracting")
+		}
+		bad := ""
+		n := 0
+		for _, it := range []uint64{0, 1, 2, 1 << 31, 1<<32 - 1} {
+			for _, oc := range []uint64{0, 1, 1 << 32, 1 << 63, 1<<64 - 1} {
+				for _, gr := range []uint64{0, 1, 99, 100, 101, 1 << 40, 1<<64 - 1} {
+					if bad != "" {
+						break
+					}
+					env := intEnv{params: map[ssa.Value]int64{f.Params[0]: int64(it), f.Params[1]: int64(oc), f.Params[2]: int64(gr)}, lens: map[ssa.Value]int64{}, unknown: map[ssa.Value]bool{}, closed: true, cells: map[ssa.Value]int64{}}
+					rs, ok := runFunc(f, env)
+					n++
+					dep := bS + bI*it + bL*oc
+					want := uint64(0)
+					if dep >= gr {
+						want = dep - gr
+					}
+					if !ok || len(rs) != 1 {
+						bad = "CalcThresholdBalance is not a pure function of (items, octets, gratis offset)"
+					} else if uint64(rs[0]) != want {
+						bad = fmt.Sprintf("items=%d octets=%d gratis=%d: the code gives %d; max(0, B_S + B_I·items + B_L·octets − gratis) in 64-bit arithmetic is %d", it, oc, gr, uint64(rs[0]), want)
+					}
+				}
+			}
+		}
+		c.Check(bad == "", "C09.threshold-formula", K+"CalcThresholdBalance · ret", f.Pos(), fmt.Sprintf("= max(0, B_S + B_I·items + B_L·octets − gratis) with 64-bit products on %d boundary valuations", n), bad)
+		c.Check(bad == "", "C09.threshold-formula", K+"CalcThresholdBalance · floor", f.Pos(), "0 exactly when the deposit is below the gratis offset (same evaluation)", "the zero floor is not decided by comparing the deposit with the gratis offset before subtracting: "+bad)
 		// no multiplication in a type narrower than 64 bits on non-constant operands
 		narrow := ""
 		allInstrs(f, func(in ssa.Instruction) {
@@ -67,7 +83,17 @@ func checkC09(c *Ctx) (string, []string) {
 	c.checkShapes("C09.footprint-formulas", K+"CalcLookupItemfootprint", fn["CalcLookupItemfootprint"], ret("CalcLookupItemfootprint"), map[string][]string{"ret#0": {"2"}, "ret#1": {"(81 + u64(p0.Length))"}})
 	c.checkShapes("C09.footprint-formulas", K+"CalcStorageItemfootprint", fn["CalcStorageItemfootprint"], ret("CalcStorageItemfootprint"), map[string][]string{"ret#0": {"1"}, "ret#1": {"((34 + u64(len(p0))) + u64(len(p1)))"}})
 	c.checkShapes("C09.footprint-formulas", K+"CalcKeys", fn["CalcKeys"], ret("CalcKeys"), map[string][]string{"ret": {"u32(((2 * len(p0.LookupDict)) + len(p0.StorageDict)))"}})
-	c.checkShapes("C09.footprint-formulas", K+"CalcOctets", fn["CalcOctets"], ret("CalcOctets"), map[string][]string{"ret": {"u64((Σ(0; ((34 + len(next(range(p0.StorageDict))#2)) + len(next(range(p0.StorageDict))#1))) + Σ(0; (81 + int(next(range(p0.LookupDict))#1.Length)))))"}})
+	{
+		rs := ret("CalcOctets")["ret"]
+		okO := len(rs) == 1
+		var terms []string
+		if okO {
+			terms, okO = sigmaTerms(rs[0])
+			sort.Strings(terms)
+		}
+		want := []string{"34 + len(next(range(p0.StorageDict))#1) + len(next(range(p0.StorageDict))#2)", "81 + int(next(range(p0.LookupDict))#1.Length)"}
+		c.Check(okO && strings.Join(terms, " ;; ") == strings.Join(want, " ;; "), "C09.footprint-formulas", K+"CalcOctets · ret", fn["CalcOctets"].Pos(), "Σ over lookup keys of (81 + z) plus Σ over storage entries of (34 + |k| + |v|), in one or two accumulators", fmt.Sprintf("CalcOctets adds up %v (from %v); GP 9.8 sums %v", terms, rs, want))
+	}
 	c.checkShapes("C09.footprint-formulas", K+"GetServiceAccountDerivatives", fn["GetServiceAccountDerivatives"], ret("GetServiceAccountDerivatives"), map[string][]string{
 		"ret.Items": {K + "CalcKeys(p0)"}, "ret.Bytes": {K + "CalcOctets(p0)"},
 		"ret.Minbalance": {K + "CalcThresholdBalance(" + K + "CalcKeys(p0), " + K + "CalcOctets(p0), p0.ServiceInfo.DepositOffset)"},
